@@ -25,6 +25,9 @@ struct World { entries: Vec<Entry>, verdicts: Vec<[HashMap<String, String>; 6]>,
 
 fn harness_dir() -> PathBuf {
     // the probe lives next to this crate; the crate dir is fixed at build time
+    // (the driver names the harness directory it runs from: a binary left in a shared target directory by a run from
+    // another copy of /verif must not look for the probe in that copy)
+    if let Ok(h) = std::env::var("VERIF_HARNESS_DIR") { let p = PathBuf::from(h).join("g_cfg"); if p.join("probe").is_dir() { return p } }
     PathBuf::from(env!("CARGO_MANIFEST_DIR"))
 }
 
